@@ -13,6 +13,10 @@ SHORT = 'receive'
 ENV = '''
 use std::ops::Range;
 pub assume_specification<T: Clone> [<[T]>::to_vec] (s: &[T]) -> (r: Vec<T>) ensures r@ == s@;
+// std: clone_from_slice panics unless both slices have the same length, then copies
+pub assume_specification<T: Clone> [<[T]>::clone_from_slice] (dst: &mut [T], src: &[T])
+    requires old(dst)@.len() == src@.len(),
+    ensures final(dst)@ == src@;
 pub assume_specification<Idx: Clone> [<Range<Idx> as Clone>::clone] (r: &Range<Idx>) -> (c: Range<Idx>) ensures c == *r;
 #[derive(Debug, Clone, Copy, PartialEq, Eq, Structural)]
 pub struct StatusCode { pub bits: u32 }
@@ -76,8 +80,6 @@ pub uninterp spec fn spec_rsa_sig_ok(p: SecurityPolicy, key: PublicKey, data: Se
 pub struct AesKey { pub value: Vec<u8> }
 pub struct PublicKey { pub sz: usize }
 pub struct PrivateKey { pub sz: usize }
-pub struct Thumbprint { pub v: Vec<u8> }
-impl Thumbprint { #[verifier::external_body] pub fn value(&self) -> (r: &[u8]) { unimplemented!() } }
 pub struct X509 { pub k: PublicKey }
 impl X509 {
     #[verifier::external_body] pub fn from_byte_string(b: &ByteString) -> (r: Result<X509, StatusCode>) { unimplemented!() }
@@ -228,6 +230,10 @@ def build_variant(manifest, variant, pid):
     sp = Src('crypto/security_policy.rs', manifest)
     mc = Src('core/comms/message_chunk.rs', manifest)
     en = Src('types/service_types/enums.rs', manifest)
+    tp = Src('crypto/thumbprint.rs', manifest)
+    thumb = tp.struct('Thumbprint', derive='PartialEq, Eq, Structural').replace('Thumbprint::THUMBPRINT_SIZE', '20')
+    tnew = splice_contract(norm_vis(clean_fn(tp.impl_fn(r'^impl Thumbprint \{', 'new'))).replace('Thumbprint::THUMBPRINT_SIZE', 'THUMBPRINT_SIZE'), '        requires digest@.len() == THUMBPRINT_SIZE,   // the function panics otherwise: callers must establish it\n        ensures r.value@ == digest@,', 'r')
+    tval = splice_contract(full_slice(norm_vis(clean_fn(tp.impl_fn(r'^impl Thumbprint \{', 'value'))), 'self.value'), '        ensures r@ == self.value@,', 'r')
     types = '\n'.join([sp.enum('SecurityPolicy'), en.enum('MessageSecurityMode'), mc.enum('MessageChunkType'),
                        mc.enum('MessageIsFinalType'),
                        sc.struct('SecureChannel', keep_fields=['security_policy', 'security_mode', 'cert', 'private_key',
@@ -256,17 +262,20 @@ def build_variant(manifest, variant, pid):
     # the thumbprint comparison `a != b` on slices: Verus has no executable != on slices; D9 rewrites the
     # comparison of two slice expressions into a call of an environment function with that meaning
     f = fns['asymmetric_decrypt_and_verify']
-    f2 = f.replace('our_thumbprint.value() != receiver_thumbprint.as_ref()', 'slices_differ(our_thumbprint.value(), receiver_thumbprint.as_ref())')
-    if f2 == f:
-        raise Undecided('lost anchor: thumbprint comparison in asymmetric_decrypt_and_verify')
-    fns['asymmetric_decrypt_and_verify'] = f2
+    # (applied where the pattern occurs; a different way of comparing is left to Verus as written)
+    fns['asymmetric_decrypt_and_verify'] = f.replace('our_thumbprint.value() != receiver_thumbprint.as_ref()', 'slices_differ(our_thumbprint.value(), receiver_thumbprint.as_ref())')
     fns['verify_padding'] = splice_at(fns['verify_padding'], r'^\s*let padding_size = \(\(extra_padding_byte as usize\) << 8\)',
         '            proof { assert(((extra_padding_byte as usize) << 8) <= 0xff00) by (bit_vector); }', before=True)
     a = Asm()
     a.add('use vstd::prelude::*;\nverus! {\nglobal size_of usize == 8;\n', 'prelude', 'env')
     a.add(norm_vis(types), 'types', 'env')
+    a.add(norm_vis(thumb) + '\npub const THUMBPRINT_SIZE: usize = 20;\n', 'types_thumb', 'env')
     a.add(ENV, 'env', 'env')
     a.add(ENV_FNS, 'env2', 'env')
+    a.add('impl Thumbprint {')
+    a.add(tnew, 'Thumbprint::new', 'fn')
+    a.add(tval, 'Thumbprint::value', 'fn')
+    a.add('}')
     a.add('broadcast use axs::axiom_with_size_len;\nimpl SecurityPolicy {')
     for n in ['symmetric_signature_size', 'is_supported']:
         a.add(fns[n], n, 'fn')
